@@ -73,10 +73,12 @@ type InprocOp struct {
 
 // Knobs are per-run configuration choices ("buggify").
 type Knobs struct {
-	BufSize        int    `json:"buf"`      // ring size of every connection
-	LinkCap        int    `json:"linkcap"`  // capacity of every link direction
-	MaxQoS         byte   `json:"maxqos"`   // topics.MaxQosAllowed
-	PIDStart       uint64 `json:"pidstart"` // start value of the process-wide packet-id counter
+	BufSize        int    `json:"buf"`              // ring size of every connection
+	BufCfg         int    `json:"bufcfg,omitempty"` // if non-zero: the configured Server.BufferSize (below the minimum, rounded up by the library to BufSize)
+	SvcPIDStart    uint32 `json:"svcpid,omitempty"` // if non-zero: at the first barrier every connection's own packet-id counter is set to this value
+	LinkCap        int    `json:"linkcap"`          // capacity of every link direction
+	MaxQoS         byte   `json:"maxqos"`           // topics.MaxQosAllowed
+	PIDStart       uint64 `json:"pidstart"`         // start value of the process-wide packet-id counter
 	ConnectTimeout int    `json:"cto,omitempty"`
 	Authenticator  string `json:"authn,omitempty"` // "", mockFailure, verifPass
 	SegNum         int    `json:"segnum"`          // read segmentation probability SegNum/SegDen
